@@ -80,3 +80,11 @@ Example C12_witness_exhaustion :
   let s := mkG 7 4095 1700000000000 (layout 1700000000000 7 4095) in
   map code_of_res (calls s [1700000000000; 1700000000000; 1700000000001]) = [2; 3; 0].
 Proof. vm_compute. reflexivity. Qed.
+
+(* The model is tied to the CURRENT source: the order-of-effects facts about nsqd's core
+   functions that the model assumes (proofs/CoreSrcDefs.v) hold of the statement skeletons
+   regenerated from /repo on this run (gen/CoreShape.v). *)
+From NSQV Require proofs.CoreSrcDefs proofs.CoreSrcC12.
+Theorem C12_source_shape : CoreSrcDefs.src_facts_C12.
+Proof. exact CoreSrcC12.src_C12. Qed.
+Print Assumptions C12_source_shape.
